@@ -53,7 +53,7 @@ theorem canon_of_toLower {k l : Bytes} (h : toLower k = l) (ht : l.all isTokenBy
   rw [← all_token_toLower, h, ht, ← canonGo_toLower, h]
   simp
 
-theorem hasSuffix_iff (s p : Bytes) : hasSuffix s p = true ↔ s.take (s.length - p.length) ++ p = s := by
+theorem hasSuffix_iff_take (s p : Bytes) : hasSuffix s p = true ↔ s.take (s.length - p.length) ++ p = s := by
   unfold hasSuffix
   rw [← List.suffix_iff_eq_append, ← List.isSuffixOf_iff_suffix]
   rfl
@@ -115,7 +115,7 @@ theorem stripETagSuffix_eq (suffix : Option Bytes) (e : Bytes) :
   | some t =>
     simp only [stripETagSuffix, etagStripped]
     by_cases h1 : hasSuffix e (t ++ b!"\"") = true
-    · have h1' := (hasSuffix_iff e (t ++ b!"\"")).1 h1
+    · have h1' := (hasSuffix_iff_take e (t ++ b!"\"")).1 h1
       simp only [List.length_append, List.length_cons, List.length_nil] at h1'
       have : (e == List.take (e.length - (t.length + 1)) e ++ t ++ b!"\"") = true := by
         rw [beq_iff_eq, List.append_assoc]; exact h1'.symm
@@ -125,19 +125,19 @@ theorem stripETagSuffix_eq (suffix : Option Bytes) (e : Bytes) :
         rw [beq_iff_eq, List.append_assoc]
         intro he
         apply h1
-        rw [hasSuffix_iff]
+        rw [hasSuffix_iff_take]
         simp only [List.length_append, List.length_cons, List.length_nil]
         exact he.symm
       rw [if_neg h1, if_neg this]
       by_cases h2 : hasSuffix e t = true
-      · have h2' := (hasSuffix_iff e t).1 h2
+      · have h2' := (hasSuffix_iff_take e t).1 h2
         have : (e == List.take (e.length - t.length) e ++ t) = true := by
           rw [beq_iff_eq]; exact h2'.symm
         rw [if_pos h2, if_pos this, trimSuffix_of_hasSuffix h2]
       · have : ¬ (e == List.take (e.length - t.length) e ++ t) = true := by
           rw [beq_iff_eq]
           intro he
-          exact h2 ((hasSuffix_iff e t).2 he.symm)
+          exact h2 ((hasSuffix_iff_take e t).2 he.symm)
         rw [if_neg h2, if_neg this]
 
 end Model.Codec
